@@ -29,7 +29,9 @@ PROPERTY = "C09"
 RULE = (
     "machine: init = (env tsp_kopt k in 2..5 | pdp_ruin_repair, n 4..12 (30 thorough; PDP even), B 1..4, "
     "uniform-seeded or k/16-lattice coordinates incl. coincident nodes, random|greedy initial tour, tiny "
-    "seeded policy); ops = mask_move (move admitted by env.get_mask picked by choice indices; k=2 and PDP), "
+    "seeded policy with drawn constructor options pos_type CPE|APE, normalization layer|batch|instance, temperature "
+    "0.5|1|2, tanh_clipping 0|2|6|10, env stepping default | _torchrl_mode=True | _torchrl_mode=True with a discarded "
+    "look-ahead move before every committed one); ops = mask_move (move admitted by env.get_mask picked by choice indices; k=2 and PDP), "
     "random (env._random_action under a drawn torch seed), policy (DACT/NeuOpt/N2S forward, greedy|sampling, "
     "then env.step), stub (same policy with a stub decoder whose logits prefer Hypothesis-chosen targets, "
     "greedy: reaches every move the policy-internal masks admit), to_solution (step_to_solution with a "
@@ -44,7 +46,11 @@ ASSUMPTIONS = [
     "cost_bsf vs running min of cost_current compared exactly (the env stores either new_obj or the old value)",
     "visited_time compared modulo the number of nodes (the env writes n for node 0, every consumer reads it mod n)",
     "td is stepped in place as in n_step_PPO.shared_step; snapshots are clones taken before each operation",
-    "policies: embed_dim 16, 1 layer, 2 heads, parameters scaled by a drawn spread factor, eval mode, no grad",
+    "policies: embed_dim 16, 1 layer, 2 heads, parameters scaled by a drawn spread factor, eval mode, no grad; policy "
+    "options change the move distribution only - the oracle (tour validity, best-so-far bookkeeping) is unchanged",
+    "_torchrl_mode=True: env.step(td) must leave rec_current/rec_best/cost_current/cost_bsf/visited_time/locs held by td "
+    "as they were (documented: the successor is written to td['next']); the history continues from td['next'] as "
+    "torchrl's step_mdp does; the reward is accepted in the spec's shape [B,1]",
     "for k>2 env.get_mask is not implemented by design (masks live in the policy / _random_action): the "
     "mask_move rule is disabled there and the stub-decoder rule enumerates the policy-internal mask instead",
     "crashes inside rl4co count as violations crash|<label>[|B=1]|<Type>|<frame>; B=1 only tagged when B==1",
@@ -173,6 +179,7 @@ class Tracker:
         return out
 
     last_action = None
+    torchrl = False
 
     def _lens(self, td, sl):
         ctx = self.ctx
@@ -245,6 +252,8 @@ class Tracker:
             ctx.violation(f"reward_missing|{sl}", "no reward after the step")
             return
         rw = td["reward"]
+        if self.torchrl and tuple(rw.shape) == (self.B, 1):
+            rw = rw.squeeze(-1)  # TorchRL stepping (_step_proc_data) reports the reward in the spec's shape [B, 1]
         ctx.check(tuple(rw.shape) == (self.B,), f"reward_shape|{sl}", f"reward shape {tuple(rw.shape)}")
         want = prev["cost_bsf"].double() - cb.double()
         tol = 1e-6 * (1 + prev["cost_bsf"].double().abs())
@@ -316,18 +325,26 @@ def build_env(init):
     from rl4co.envs.routing.tsp.env import TSPkoptEnv
 
     gp = dict(num_loc=init["n"], init_sol_type=init["init_sol"])
+    # documented constructor option of RL4COEnvBase: step() leaves the state in td and writes the successor to td["next"]
+    kw = dict(_torchrl_mode=True) if init.get("stepping", "default") != "default" else {}
     if init["env"] == "pdp":
-        return PDPRuinRepairEnv(generator_params=gp)
-    return TSPkoptEnv(generator_params=gp, k_max=init["k"])
+        return PDPRuinRepairEnv(generator_params=gp, **kw)
+    return TSPkoptEnv(generator_params=gp, k_max=init["k"], **kw)
 
 
 _POL = {}
 
 
-def get_policy(name, wseed, spread):
-    key = (name, int(wseed), float(spread))
+POL_DEFAULT = {"pos_type": "CPE", "normalization": "layer", "temperature": 1.0, "tanh_clipping": 6.0}
+
+
+def get_policy(name, wseed, spread, opts=None):
+    opts = {**POL_DEFAULT, **(opts or {})}
+    key = (name, int(wseed), float(spread), tuple(sorted(opts.items())))
     if key in _POL:
         return _POL[key]
+    if len(_POL) > 48:
+        _POL.clear()
     from rl4co.models.zoo.dact.policy import DACTPolicy
     from rl4co.models.zoo.n2s.policy import N2SPolicy
     from rl4co.models.zoo.neuopt.policy import NeuOptPolicy
@@ -335,7 +352,9 @@ def get_policy(name, wseed, spread):
     cls = {"dact": DACTPolicy, "n2s": N2SPolicy, "neuopt": NeuOptPolicy}[name]
     state = torch.get_rng_state()
     torch.manual_seed(1000 + int(wseed))
-    pol = cls(embed_dim=16, num_encoder_layers=1, num_heads=2, feedforward_hidden=16)
+    pol = cls(embed_dim=16, num_encoder_layers=1, num_heads=2, feedforward_hidden=16, pos_type=opts["pos_type"],
+              normalization=opts["normalization"], temperature=float(opts["temperature"]),
+              tanh_clipping=float(opts["tanh_clipping"]))
     torch.set_rng_state(state)
     with torch.no_grad():
         for p in pol.parameters():
@@ -392,6 +411,13 @@ class C09Harness:
         self.env = build_env(init)
         self.pname = "n2s" if self.kind == "pdp" else ("dact" if self.k == 2 else "neuopt")
         self.tr = Tracker(ctx, self.kind, self.k, c64)
+        self.stepping = init.get("stepping", "default")
+        self.tr.torchrl = self.stepping != "default"
+        self.popts = init.get("pol") or {}
+        ctx.event(f"stepping:{self.stepping}")
+        for k_, v_ in self.popts.items():
+            if POL_DEFAULT.get(k_) != v_:
+                ctx.event(f"policy_option:{k_}={v_}")
         self.ops_used = set()
         self.k_distinct = False
         torch.manual_seed(int(init["rseed"]))
@@ -431,11 +457,50 @@ class C09Harness:
         self.pending = None
         self.ctx.event("op_skipped_after_known_crash")
 
+    STATE_KEYS = ("rec_current", "rec_best", "cost_current", "cost_bsf", "visited_time", "locs")
+
+    def _state_untouched(self, before, what):
+        for k_, v_ in before.items():
+            if k_ in self.td.keys() and not torch.equal(self.td[k_], v_):
+                self.ctx.violation(f"torchrl_step_modified_state|{self.tr.name}|{k_}",
+                                   f"_torchrl_mode=True: env.step(td) changed td[{k_!r}] in place ({what}); the successor "
+                                   "belongs under td['next'] and the state held by td must stay as it was")
+                return False
+        return True
+
     def _env_step(self, op, action):
-        out = self._guard(self.env.step, self.td, what=f"{self.kind}_step")
-        if out is CRASH:
-            return self._crashed()
-        self.td = out["next"]
+        if self.stepping == "default":
+            out = self._guard(self.env.step, self.td, what=f"{self.kind}_step")
+            if out is CRASH:
+                return self._crashed()
+            self.td = out["next"]
+        else:
+            # TorchRL stepping: the state stays in td, the successor is written to td["next"]; with `torchrl_probe` another
+            # move of the env's own sampler is evaluated from the same td first and discarded (look-ahead), then the
+            # committed action is stepped from the untouched state
+            before = {k_: self.td[k_].clone() for k_ in self.STATE_KEYS if k_ in self.td.keys()}
+            committed = self.td["action"].clone()
+            if self.stepping == "torchrl_probe":
+                torch.manual_seed(7919 + self.tr.steps)
+                if self._guard(self.env._random_action, self.td, what="random_action") is CRASH:
+                    return self._crashed()
+                out = self._guard(self.env.step, self.td, what=f"{self.kind}_step")
+                if out is CRASH:
+                    return self._crashed()
+                if not self._state_untouched(before, "probed move"):
+                    return self._crashed()
+                self.td = self.td.exclude("next")
+                self.td.set("action", committed)
+                self.ctx.event("torchrl:probe_discarded")
+            out = self._guard(self.env.step, self.td, what=f"{self.kind}_step")
+            if out is CRASH:
+                return self._crashed()
+            if not self._state_untouched(before, "committed move"):
+                return self._crashed()
+            nxt = out["next"]
+            self.td = nxt.exclude("next") if "next" in nxt.keys() else nxt
+            if "action" not in self.td.keys():
+                self.td.set("action", committed)
         self.pending = (op, action)
         self.ops_used.add(op)
         self.ctx.event(f"op:{op}")
@@ -486,7 +551,7 @@ class C09Harness:
 
     # -- (c) bundled policy
     def _policy_forward(self, decode, phase, label):
-        pol = get_policy(self.pname, self.init["wseed"], self.init["spread"])
+        pol = get_policy(self.pname, self.init["wseed"], self.init["spread"], self.popts)
         with torch.no_grad():
             out = self._guard(pol, self.td, self.env, phase=phase, decode_type=decode, what=label)
         return out
@@ -502,7 +567,7 @@ class C09Harness:
     # -- (d) bundled policy, stub decoder
     def do_stub(self, tgts, rowmul, mode):
         B, N = self.B, self.N
-        pol = get_policy(self.pname, self.init["wseed"], self.init["spread"])
+        pol = get_policy(self.pname, self.init["wseed"], self.init["spread"], self.popts)
         tg = [[tgts[i] + b * rowmul for b in range(B)] for i in range(len(tgts))]
         if self.pname == "dact":
             swaps = {"decoder": StubTD(tg[0], lambda td: (B, N, N))}
@@ -619,6 +684,13 @@ def inits(draw, tier="quick"):
     init["rseed"] = draw(st.integers(0, 2 ** 20))
     init["wseed"] = draw(st.integers(0, 2))
     init["spread"] = draw(st.sampled_from([1.0, 2.0]))
+    # constructor options of the bundled improvement policies (DACT / NeuOpt / N2S share them) and the env's stepping mode
+    if draw(st.booleans()):
+        init["pol"] = {"pos_type": draw(st.sampled_from(["CPE", "APE", "APE"])),
+                       "normalization": draw(st.sampled_from(["layer", "batch", "instance"])),
+                       "temperature": draw(st.sampled_from([1.0, 0.5, 2.0])),
+                       "tanh_clipping": draw(st.sampled_from([6.0, 0.0, 2.0, 10.0]))}
+    init["stepping"] = draw(st.sampled_from(["default", "default", "default", "torchrl", "torchrl_probe"]))
     return init
 
 
@@ -739,6 +811,10 @@ def machine_min(case):
         yield plain(k=init["k"] - 1)
     if init["coords"] == "lattice":
         yield plain()
+    if init.get("pol"):
+        yield {**case, "init": {k_: v_ for k_, v_ in init.items() if k_ != "pol"}}
+    if init.get("stepping", "default") != "default":
+        yield {**case, "init": {**init, "stepping": "default"}}
     for key, val in (("iseed", 0), ("rseed", 0), ("wseed", 0), ("spread", 1.0), ("init_sol", "random")):
         if init.get(key, val) != val:
             yield {**case, "init": {**init, key: val}}
